@@ -3,9 +3,9 @@
 # usage: tools_mut.sh <file-relative-to-repo> <sed-expr> <modules> [keys...]
 set -e
 D=/scratch/mut.$$
-mkdir -p $D && cp -r /repo/mistletoe $D/ 
+mkdir -p $D && cp -r ${MUT_SRC:-/repo}/mistletoe $D/ 
 f=$1; e=$2; shift 2
 sed -i "$e" $D/$f
-diff <(cat /repo/$f) $D/$f | head -8 || true
+diff <(cat ${MUT_SRC:-/repo}/$f) $D/$f | head -8 || true
 cd /verif && PYVC_REPO=$D python3-vt -m pyvc.run "$@" | grep -v "^   ok" || true
 rm -rf $D
